@@ -51,6 +51,7 @@ def strat_T(tier):
         'shift': _shift(), 'phys': _phys(), 'method': st.sampled_from(['mdft', 'czt']), 'fwd': st.booleans(),
         'kind': U.field_kinds, 'seed': U.seeds, 'adtype': st.sampled_from(['complex128', 'complex128', 'float64']), 'layout': U.layouts,
         'ab': st.tuples(U.nice_float(-2, 2), U.nice_float(-2, 2), U.nice_float(-2, 2), U.nice_float(-2, 2)).map(lambda t: [round(v, 3) for v in t]),
+        'mag': st.sampled_from([0, 0, 0, 0, -9, -12, 9, -30, 30, -100, 100]),       # decimal exponent of an overall amplitude factor: the relations are homogeneous in the field
     })
 
 
@@ -68,9 +69,11 @@ def check_T(case, ctx):
         a = a.astype(complex)
     else:
         a = np.ascontiguousarray(a.real).astype(case.get('adtype', 'complex128'))     # real-dtype input: linearity must hold across dtypes too
-    a = U.relayout(a, case.get('layout', 'C'))
+    mag = 10.0 ** case.get('mag', 0)
+    a = U.relayout(a * mag, case.get('layout', 'C'))
     a_before = a.copy()
-    b = U.field(case['seed'], shape, 'complex', 2)
+    b = U.field(case['seed'], shape, 'complex', 2) * mag
+    ctx.label('mag:1' if mag == 1 else ('mag:tiny' if mag < 1 else 'mag:huge'))
     al = complex(case['ab'][0], case['ab'][1])
     be = complex(case['ab'][2], case['ab'][3])
     if fwd:
@@ -123,7 +126,7 @@ def strat_mask(tier):
         'Q': st.one_of(st.sampled_from([1.0, 2.0, 0.5, 1.37]), U.nice_float(0.4, 4).map(lambda v: round(v, 3))),
         'shift': _shift(), 'phys': _phys(), 'method': st.sampled_from(['mdft', 'czt']),
         'mkind': st.sampled_from(['real', 'complex', 'binary', 'int-pm', 'uint8', 'bool']), 'via': st.sampled_from(['function', 'wavefront', 'wavefront-mask']),
-        'kind': U.field_kinds, 'seed': U.seeds})
+        'kind': U.field_kinds, 'seed': U.seeds, 'mag': st.sampled_from([0, 0, 0, 0, -9, -12, 9, -30, 30, -100, 100])})
 
 
 def _mask(case, salt=0):
@@ -164,7 +167,8 @@ def check_mask(case, ctx):
     ph = case['phys']
     dx, lam, efl = ph['dx'], ph['wvl'], ph['efl']
     ny, nx = shape
-    f = U.field(case['seed'], shape, case['kind']).astype(complex)
+    f = U.field(case['seed'], shape, case['kind']).astype(complex) * 10.0 ** case.get('mag', 0)
+    ctx.label('mag:1' if case.get('mag', 0) == 0 else ('mag:tiny' if case.get('mag', 0) < 0 else 'mag:huge'))
     m1 = _mask(case, 0)
     m2 = _mask(case, 1)
     m1f, m2f = (m.astype(float) if m.dtype.kind in 'bui' else m for m in (m1, m2))     # the oracle side works in float / complex
